@@ -93,7 +93,44 @@ def shard_fn(shard):
     return p
 
 
+def loaded_shard(ti):
+    """Programs that come from the ASSEMBLER (data segment with every declaration kind + one nop): the cycle counter is 0 before
+    the first step and the run takes the documented n + 4 = 5 cycles, whatever data cache and miss penalty are configured —
+    loading a program is not a step and incurs no penalty."""
+    from architecture_simulator.simulation.riscv_simulation import RiscvSimulation
+    from vf.checks import c09
+    text = c09.PRELOAD_TEXTS[ti]
+    p = Partial()
+    for dc, (dib, dbb, dways, kind, dpolicy) in enumerate(DCACHES):
+        for pen in (1, 3, 7):
+            for loads in (1, 2):
+                sim = RiscvSimulation(mode=rv.FIVE, data_cache=rv.cache_opts(dib, dbb, dways, kind, dpolicy, pen))
+                for _ in range(loads):
+                    sim.load_program(text)
+                pm = sim.state.performance_metrics
+                p.evaluations += 1
+                p.nontrivial += 1
+                p.counters["assembled-program-under-a-penalty"] += 1
+                bad = None
+                if pm.cycles != 0:
+                    bad = f"cycle counter is {pm.cycles} before the first step"
+                else:
+                    n = 0
+                    while not sim.is_done() and n < 40:
+                        sim.step()
+                        n += 1
+                    if pm.cycles != 5 or n != 5:
+                        bad = f"one independent instruction took {pm.cycles} cycles in {n} steps, documented n + 4 = 5"
+                if bad:
+                    p.violation(dict(oracle="documented-schedule", field="assembled-program"), dict(kind="penalty-loaded", ti=ti, dc=dc, pen=pen, loads=loads),
+                                f"{text!r} dcache#{dc} {kind} pen={pen}, loaded {loads}x: {bad}", size=(ti, dc, pen, loads))
+    return p
+
+
 def replay(case):
+    if case.get("kind") == "penalty-loaded":
+        part = loaded_shard(case["ti"])
+        return [(lst[0][1], lst[0][3]) for _k, (n, lst) in part.viol.items()]
     prog = [tuple(i) for i in case["prog"]]
     bad, _i, _d, _e = penalty_case(prog, case["ic"], case["dc"], case["pi"], case["pd"])
     return [(dict(oracle="documented-schedule", field=f), f"[{rv.prog_text(prog)}]: {d}") for f, d in bad]
@@ -106,4 +143,8 @@ def run_part(ctx):
         part = pmap(shard_fn, [(L, f, pairing) for f in range(n)])
         part.transitions = 0
         ctx.space(f"penalty-clause-len{L}-{pairing}", part, t0, length=L, icaches=6, dcaches=6, penalties=list(PENS), pairing=pairing)
-    ctx.require("d-penalty", "i-penalty")
+    from vf.checks import c09
+    t0 = time.time()
+    part = pmap(loaded_shard, list(range(len(c09.PRELOAD_TEXTS))))
+    ctx.space("penalty-clause-assembled-programs", part, t0, texts=len(c09.PRELOAD_TEXTS), dcaches=6, penalties=[1, 3, 7])
+    ctx.require("d-penalty", "i-penalty", "assembled-program-under-a-penalty")
